@@ -31,9 +31,10 @@ type worldCfg struct {
 }
 
 type wgen struct {
-	rng  *rand.Rand
-	base int64
-	cfg  worldCfg
+	rng    *rand.Rand
+	base   int64
+	cfg    worldCfg
+	decoys []string // label values of sibling groups that decoy pods may mention (without selecting those groups)
 }
 
 func (g *wgen) p(pr float64) bool { return g.rng.Float64() < pr }
@@ -732,10 +733,56 @@ func (g *wgen) group(s *scanSpec, name string, idx int, others []string) {
 			k8s.GetFail = append(k8s.GetFail, name+"-nosuch")
 		}
 	}
+	// decoys: pods that MENTION a sibling group's label value (or this group's) without selecting that group
+	dec := append(append([]string{}, others...), g.decoys...)
+	if len(dec) > 0 && g.p(0.6) {
+		for i := 0; i < 1+rng.Intn(2); i++ {
+			gg.pods = append(gg.pods, g.decoyPod(gg, dec[rng.Intn(len(dec))], rng.Intn(6)))
+		}
+	}
 	s.Nodes = append(s.Nodes, gg.nodes...)
 	s.Pods = append(s.Pods, gg.pods...)
 	s.Cloud = append(s.Cloud, a)
 	s.Groups = append(s.Groups, groupSpec{Opts: *o, State: gg.st, Aws: aws, K8s: k8s})
+}
+
+// decoyPod: a pending pod with small requests whose scheduling constraints mention the label value `ov` of a sibling
+// group in a place that does not select that group (both label keys the generator uses are covered).
+func (g *wgen) decoyPod(gg *ggen, ov string, shape int) *v1.Pod {
+	p := mkPod("x", gg.podName(), "", "10m", "1Mi", pending())
+	p.Spec.NodeSelector = nil
+	in := func(k string, vals ...string) v1.NodeSelectorRequirement {
+		return v1.NodeSelectorRequirement{Key: k, Operator: v1.NodeSelectorOpIn, Values: vals}
+	}
+	req := func(terms ...v1.NodeSelectorTerm) *v1.Affinity {
+		return &v1.Affinity{NodeAffinity: &v1.NodeAffinity{RequiredDuringSchedulingIgnoredDuringExecution: &v1.NodeSelector{NodeSelectorTerms: terms}}}
+	}
+	dflt := gg.o.Name == controller.DefaultNodeGroup
+	switch shape {
+	case 0: // a member of THIS group whose term also lists the sibling's value under another key
+		if !dflt {
+			p.Spec.Affinity = req(v1.NodeSelectorTerm{MatchExpressions: []v1.NodeSelectorRequirement{in(gg.o.LabelKey, gg.o.LabelValue), in("tier", ov)}})
+			break
+		}
+		fallthrough
+	case 1: // both keys constrained to other values, the sibling's value listed under a third key: nobody's pod
+		p.Spec.Affinity = req(v1.NodeSelectorTerm{MatchExpressions: []v1.NodeSelectorRequirement{in("grp", "nope"), in("pool", "nope"), in("tier", ov)}})
+	case 2: // the right keys with the wrong operator
+		p.Spec.Affinity = req(v1.NodeSelectorTerm{MatchExpressions: []v1.NodeSelectorRequirement{
+			{Key: "grp", Operator: v1.NodeSelectorOpNotIn, Values: []string{ov}}, {Key: "pool", Operator: v1.NodeSelectorOpNotIn, Values: []string{ov}},
+			{Key: "grp", Operator: v1.NodeSelectorOpExists}}})
+	case 3: // only a preference (not a requirement) for the sibling
+		p.Spec.Affinity = &v1.Affinity{NodeAffinity: &v1.NodeAffinity{PreferredDuringSchedulingIgnoredDuringExecution: []v1.PreferredSchedulingTerm{
+			{Weight: 1, Preference: v1.NodeSelectorTerm{MatchExpressions: []v1.NodeSelectorRequirement{in("grp", ov), in("pool", ov)}}}}}}
+		p.Spec.NodeSelector = map[string]string{"tier": ov}
+	case 4: // the sibling's value under a foreign nodeSelector key; matchFields instead of matchExpressions
+		p.Spec.NodeSelector = map[string]string{"tier": ov}
+		p.Spec.Affinity = req(v1.NodeSelectorTerm{MatchFields: []v1.NodeSelectorRequirement{in("grp", ov), in("pool", ov)}})
+	default: // two terms, each half right
+		p.Spec.Affinity = req(v1.NodeSelectorTerm{MatchExpressions: []v1.NodeSelectorRequirement{in("grp", "nope"), in("pool", "nope")}},
+			v1.NodeSelectorTerm{MatchExpressions: []v1.NodeSelectorRequirement{in("tier", ov)}})
+	}
+	return p
 }
 
 // world draws a whole world.
